@@ -50,7 +50,12 @@ def abs (a : ArraySized) : List (List Nat) := (List.range a.size).map a.chunk
 
 /-- representation invariant -/
 def Inv (a : ArraySized) : Prop :=
-  0 < a.dataLen ∧ 0 < a.capacity ∧ a.size ≤ a.capacity ∧ a.capacity * a.dataLen ≤ a.buf.length
+  0 < a.dataLen ∧ 0 < a.capacity ∧ a.size ≤ a.capacity ∧ a.capacity * a.dataLen ≤ a.buf.length ∧
+  a.capacity ≤ CC_MAX_ELEMENTS
+
+/-- the conversion `(size_t)(capacity * exp_factor)` is defined (C11 6.3.1.4; otherwise the
+behaviour is undefined), and the largest `float` below 2^64 is 2^64 − 2^40 -/
+def GrowOk (a : ArraySized) : Prop := ∀ c, a.grow c ≤ CC_MAX_ELEMENTS
 
 instance (a : ArraySized) : Decidable a.Inv := by unfold Inv; infer_instance
 
